@@ -92,7 +92,8 @@ class DistributeMapper(IdentityMapper):
                     rest = 1
 
                 result = self.collect(pymbolic.flattened_sum([
-                       pymbolic.flattened_product(leading) * dist(sumchild*rest)
+                       dist(pymbolic.flattened_product(
+                           [*leading, sumchild, rest]))
                        for sumchild in sum.children
                        ]))
                 return result
